@@ -49,6 +49,32 @@ type Topo struct {
 	ASes  map[addr.IA]*AS
 	Order []addr.IA // deterministic iteration order
 	Links []Link
+	// PeerOff lists peering links (index into Links) that are down during the next beaconing run:
+	// neither end announces them. The same hop sequence can thus be registered once with and once
+	// without a peer entry.
+	PeerOff map[int]bool
+}
+
+// ActivePeers returns the peering interfaces of ia that are up (sorted, as the beaconing code passes them).
+func (t *Topo) ActivePeers(ia addr.IA) []uint16 {
+	off := map[uint16]bool{}
+	for i, l := range t.Links {
+		if t.PeerOff[i] && l.Type == "peer" {
+			if l.A == ia {
+				off[l.AIf] = true
+			}
+			if l.B == ia {
+				off[l.BIf] = true
+			}
+		}
+	}
+	var out []uint16
+	for _, id := range t.ASes[ia].SortedIfs(topology.Peer) {
+		if !off[id] {
+			out = append(out, id)
+		}
+	}
+	return out
 }
 
 // GenOpts bounds the generated topologies.
